@@ -89,6 +89,7 @@ class _B:
         self.pnames, self.cnames, self.unames = [], [], []
         self.head_eqs = []      # equations kept in this order, before the shuffled rest
         self.indep = []         # unknowns whose value does not depend on any state (usable in initial equations)
+        self.chain_outer = []   # state-independent eliminable variables defined through another eliminable variable
 
     def declare(self, name, line, value, given=False):
         self.decl[name] = line
@@ -131,11 +132,11 @@ class _B:
         return s
 
 
-def _affine_rhs(b, maxterms=2, use_params=True):
+def _affine_rhs(b, maxterms=2, use_params=True, pool=None):
     """Random affine expression over already defined names; returns (text, value)."""
     r = b.rng
     terms, val = [], Fraction(0)
-    pool = b.unknowns + b.states + b.unames
+    pool = list(pool) if pool is not None else b.unknowns + b.states + b.unames
     n = r.randint(1, maxterms) if pool else 0
     for w in r.sample(pool, min(n, len(pool))):
         a = b.small(nz=True, lo=-3, hi=3)
@@ -196,12 +197,16 @@ def gen_model(rng, stream="main", size=None):
         # without resolving the expressions first)
         b.declare("cc0", "constant Real cc0 = 2*c0 + 1;", 2 * b.sol["c0"] + 1, given=True)
         b.cnames.append("cc0")
-    for i in range(r.randint(0, 2)):
+    for i in range(r.randint(1, 2) if stream == "allalias" else r.randint(0, 2)):
         v = b.small()
         b.declare("u%d" % i, "input Real u%d;" % i, v, given=True)
         b.unames.append("u%d" % i)
     # ---- states --------------------------------------------------------------------------------
     nst = r.choice([0, 0, 1, 1, 2])
+    if stream == "eliminit":
+        nst = r.choice([1, 2])
+    if stream == "allalias":
+        nst = 0                       # every equation is an alias equation: all of them are eliminated
     if stream == "affineconst":
         nst = 0                       # no initial equations: the affine collapse of the dae equations is what is looked at
     if stream == "affineinit":
@@ -220,6 +225,12 @@ def gen_model(rng, stream="main", size=None):
         kinds_all = kinds_all + ["nonlin", "nonlin", "nonlin", "ifelim", "ifelim"]
     if stream in ("contradiction", "iter"):
         kinds_all = [k for k in kinds_all if k not in ("elim", "elimchain")]
+    if stream == "eliminit":
+        kinds_first = ["const", "inputalias"]
+        kinds_all = ["elimchain", "elimchain", "elim", "const", "affine", "inputalias", "alias"]
+    if stream == "allalias":
+        kinds_first = ["inputalias"]
+        kinds_all = ["aliaschain", "aliaschain", "alias", "negalias", "inputalias"]
     if stream == "aliaschain":
         kinds_all = ["aliaschain"] * 5 + ["const", "affine", "alias", "negalias", "pscaled", "pscaled", "pscaled"]
     i = 0
@@ -244,6 +255,8 @@ def gen_model(rng, stream="main", size=None):
             w = b.ref()
             if w is None:
                 continue
+            if w in b.indep or w in b.unames:
+                b.indep.append(v)
             if kind == "alias":
                 val = b.sol[w]
                 eq = r.choice(["%s = %s" % (v, w), "%s = %s" % (w, v), "%s - %s = 0" % (v, w), "0 = %s - %s" % (w, v)])
@@ -301,8 +314,13 @@ def gen_model(rng, stream="main", size=None):
             val = -b.sol[w] + 1
             eq = r.choice(["-%s = %s - 1" % (v, w), "1 - %s = %s" % (v, w)])
         elif kind == "elim":
-            rhs, val = _affine_rhs(b, maxterms=2, use_params=r.random() < 0.5)
-            form = r.choice(["l", "r", "add-l", "add-r"])
+            ipool = b.indep + b.unames
+            if ipool and r.random() < 0.5:
+                rhs, val = _affine_rhs(b, maxterms=2, use_params=r.random() < 0.5, pool=ipool)
+                b.indep.append(v)       # state independent: may appear in an initial equation
+            else:
+                rhs, val = _affine_rhs(b, maxterms=2, use_params=r.random() < 0.5)
+            form = r.choice(["l", "r", "add-l", "add-r", "add-r"])
             if form == "l":
                 eq = "%s = %s" % (v, rhs)
             elif form == "r":
@@ -328,10 +346,12 @@ def gen_model(rng, stream="main", size=None):
         elif kind == "elimchain":
             # eliminable variables defined through each other, 3-5 deep: e_a = f(e_b), e_b = g(e_c), e_c = h(x);
             # the head is used by an ordinary equation (the substitution fixpoint must run to the end)
-            depth = r.randint(3, 5)
+            depth = r.randint(2, 4) if stream == "eliminit" else r.randint(3, 5)
             if i + depth + 1 > n + 3:
-                depth = 3
-            base = b.ref()
+                depth = min(depth, 3)
+            ipool = b.indep + b.unames
+            chain_indep = bool(ipool) and (r.random() < 0.6 or stream == "eliminit")
+            base = r.choice(ipool) if chain_indep else b.ref()
             if base is None:
                 continue
             chain = ["e_v%d" % (i + j) for j in range(depth)]      # chain[0] is the head
@@ -341,7 +361,8 @@ def gen_model(rng, stream="main", size=None):
                 a, k = b.small(nz=True, lo=-2, hi=2), b.small(lo=-2, hi=2)
                 cvals[nm] = a * prev_val + k
                 rhs = "%s*%s + %s" % (lit(a) if a > 0 else par(lit(a)), prev, lit(k) if k >= 0 else par(lit(k)))
-                ceqs.append(r.choice(["%s = %s" % (nm, rhs), "%s = %s" % (rhs, nm), "%s + (%s) = 0" % (nm, "(-1)*(" + rhs + ")")]))
+                ceqs.append(r.choice(["%s = %s" % (nm, rhs), "%s = %s" % (rhs, nm), "%s + (%s) = 0" % (nm, "(-1)*(" + rhs + ")"),
+                                      "(%s) + %s = 0" % ("(-1)*(" + rhs + ")", nm)]))
                 prev, prev_val = nm, cvals[nm]
             user = "v%d" % (i + depth)
             k = b.small(lo=-2, hi=2)
@@ -349,6 +370,9 @@ def gen_model(rng, stream="main", size=None):
                 b.declare(nm, "Real %s;" % nm, cvals[nm])
             b.declare(user, "Real %s%s;" % (user, b.attrs()), 2 * cvals[chain[0]] + k)
             b.unknowns.extend(chain + [user])
+            if chain_indep:
+                b.indep.extend(chain + [user])
+                b.chain_outer.extend(chain[:-1])
             b.eqs.extend(ceqs + ["%s = 2*%s + %s" % (user, chain[0], lit(k) if k >= 0 else par(lit(k)))])
             b.kinds.append("elimchain%d" % depth)
             i += depth + 1
@@ -356,7 +380,7 @@ def gen_model(rng, stream="main", size=None):
         elif kind == "aliaschain":
             # a tree of 3-6 alias equations over one protected variable (parameter / input / constant / state) and
             # algebraic variables: alg-alg links and links to the protected variable, both operand orders, both signs
-            roots = b.pnames + b.cnames + b.unames + b.states
+            roots = b.unames if stream == "allalias" else b.pnames + b.cnames + b.unames + b.states
             root = r.choice(roots)
             depth = r.randint(3, 6)
             members, ceqs = [], []
@@ -393,6 +417,8 @@ def gen_model(rng, stream="main", size=None):
                 ceqs.append((e, tgt))
                 members.append(nm)
             b.unknowns.extend(members)
+            if root in b.unames or root in b.pnames or root in b.cnames:
+                b.indep.extend(members)
             b.eqs.extend(e for e, _ in ceqs)
             b.kinds.append("aliaschain%d" % depth)
             i += depth
@@ -472,8 +498,26 @@ def gen_model(rng, stream="main", size=None):
     # ---- differential equations: one per state, defining der(x) -------------------------------
     for x in b.states:
         rhs, val = _affine_rhs(b, maxterms=2)
-        form = r.choice(["plain", "plain", "alias", "scaled"])
-        if form == "alias" and b.unknowns:
+        form = r.choice(["plain", "plain", "alias", "scaled", "chain2"])
+        if form == "chain2":
+            # the differential equation written through two algebraic aliases of two protected variables:
+            # a ~ x, b ~ der(x), a ~ b (in this order); the last equation links two protected classes and must stay
+            na, nb = "da_%s" % x, "db_%s" % x
+            s1, s2, s3 = r.choice([1, -1]), r.choice([1, -1]), r.choice([1, -1])
+            va = s1 * b.sol[x]
+            vb = s3 * va
+            val = s2 * vb
+
+            def lk(a_, b_, sg_):
+                a_first = r.random() < 0.5
+                if sg_ > 0:
+                    return r.choice(["%s = %s", "%s - %s = 0"]) % ((a_, b_) if a_first else (b_, a_))
+                return r.choice(["%s = -%s", "%s + %s = 0"]) % ((a_, b_) if a_first else (b_, a_))
+            b.declare(na, "Real %s;" % na, va)
+            b.declare(nb, "Real %s;" % nb, vb)
+            b.unknowns += [na, nb]
+            b.head_eqs += [lk(na, x, s1), lk(nb, "der(%s)" % x, s2), lk(na, nb, s3)]
+        elif form == "alias" and b.unknowns:
             w = r.choice(b.unknowns)
             val = b.sol[w]
             b.eqs.append(r.choice(["der(%s) = %s" % (x, w), "%s = der(%s)" % (w, x)]))
@@ -484,7 +528,7 @@ def gen_model(rng, stream="main", size=None):
             b.eqs.append("der(%s) = %s" % (x, rhs))
         b.sol["der(%s)" % x] = val
         b.kinds.append("der-" + form)
-        if r.random() < 0.6 or stream == "affineinit":
+        if r.random() < 0.6 or stream in ("affineinit", "eliminit"):
             xv = b.sol[x]
             exprs = [q for q in b.pnames + b.cnames if q.startswith(("q", "cc"))]
             pc = r.choice(exprs) if exprs and r.random() < 0.6 else r.choice(b.pnames + b.cnames)
@@ -494,12 +538,18 @@ def gen_model(rng, stream="main", size=None):
                      # initial equations that mention a parameter / constant (they are substituted by the passes too)
                      "%s = %s + %s" % (x, pc, lit(rest) if rest >= 0 else par(lit(rest))),
                      "%s - %s = %s" % (x, pc, lit(rest) if rest >= 0 else par(lit(rest)))]
+            picked = None
             if b.indep:
                 # only unknowns that do not depend on a state: `x0 = w + d` with w = f(x0) would be the vacuous 0 = 0
-                w = r.choice(b.indep)
+                evs = [n_ for n_ in b.indep if n_.startswith("e_v")]
+                if b.chain_outer and r.random() < 0.7:
+                    evs = list(b.chain_outer)     # its resolved value needs the whole fixpoint
+                w = r.choice(evs) if evs and (r.random() < 0.6 or stream == "eliminit") else r.choice(b.indep)
                 d = xv - b.sol[w]
                 forms.append("%s = %s + %s" % (x, w, lit(d) if d >= 0 else par(lit(d))))
-            b.inits.append(r.choice(forms[2:4]) if r.random() < 0.45 else r.choice(forms))
+                if r.random() < 0.4 or (stream == "eliminit" and w.startswith("e_v")):
+                    picked = forms[-1]
+            b.inits.append(picked or (r.choice(forms[2:4]) if r.random() < 0.45 else r.choice(forms)))
     if stream == "delay":
         # a delayed expression over variables that the passes eliminate (aliases, constant assignments, eliminable
         # variables), a constant and a parameter (former finding C15-F4): every substituting pass must rewrite it
@@ -534,6 +584,15 @@ def gen_model(rng, stream="main", size=None):
             b.unknowns.append(d)
             b.eqs += ["%s = %s" % (a, c), "%s = %s" % (c, d), r.choice(["%s = -%s" % (d, a), "%s + %s = 0" % (a, d)])]
         b.kinds.append("contradiction")
+    if stream == "allalias":
+        # consistent initial equations on aliases that the detection eliminates (no state: every DAE equation is an alias
+        # equation and is removed; the initial equations must still be rewritten)
+        for w in r.sample(b.unknowns, min(len(b.unknowns), r.randint(1, 2))):
+            k = b.small(lo=-2, hi=2)
+            b.inits.append(r.choice(["%s = %s" % (w, lit(b.sol[w]) if b.sol[w] >= 0 else par(lit(b.sol[w]))),
+                                     "2*%s + %s = %s" % (w, lit(k) if k >= 0 else par(lit(k)),
+                                                         lit(2 * b.sol[w] + k) if 2 * b.sol[w] + k >= 0 else par(lit(2 * b.sol[w] + k)))]))
+        b.kinds.append("alias-inits")
     if stream == "affineconst":
         # equations that still depend on a constant when the affine form is built
         w = b.ref()
@@ -650,6 +709,17 @@ def gen_options(rng, case):
         o["expand_vectors"] = False if not o["expand_mx"] else o["expand_vectors"]
     elif stream in ("contradiction", "timealias"):
         o["detect_aliases"] = True
+    elif stream == "eliminit":
+        o["eliminable_variable_expression"] = ELIM_RE
+        o["expand_mx"] = True
+        o.pop("reduce_affine_expression", None)
+    elif stream == "allalias":
+        o["detect_aliases"] = True
+        o["allow_derivative_aliases"] = True
+        o["eliminate_constant_assignments"] = rng.random() < 0.3
+        o.pop("eliminable_variable_expression", None)
+        o.pop("reduce_affine_expression", None)
+        o.pop("iterative_simplification", None)
     elif stream == "aliaschain":
         o["detect_aliases"] = True
         for k in ("replace_parameter_values", "replace_constant_values", "replace_parameter_expressions", "replace_constant_expressions"):
@@ -1028,7 +1098,16 @@ def oracle_c14(case, r):
         return out                       # an exception / iteration-limit warning reports failure: allowed
     m = r.model
     sol = solution(case)
-    # (1) recorded constant values hold in the (unique) original solution
+    # (1) recorded constant values hold in the (unique) original solution; the values of the constants and
+    #     parameters that remain are expressions of variables that remain (they must be fixed *at their values*)
+    still = known_symbols(m)
+    import casadi as _ca
+    for v in list(m.constants) + list(m.parameters):
+        if isinstance(v.value, _ca.MX):
+            gone = sorted(s_.name() for s_ in _ca.symvar(v.value) if s_.name() not in still)
+            if gone:
+                out.append(("the value of %s refers to variables that are no longer in the model: %s"
+                            % (v.symbol.name(), ",".join(gone)), "value over remaining variables", str(v.value)))
     for v in m.constants:
         nm = v.symbol.name()
         if nm not in sol:
@@ -1181,12 +1260,13 @@ def plan(tier, prop):
     (former and open) findings come first so that the time budget never cuts them off."""
     q = tier == "quick"
     p = [("contradiction", 3 if q else 40, 2), ("iter", 3 if q else 40, 2), ("delay", 5 if q else 60, 3),
-         ("aliaschain", 8 if q else 150, 3), ("affineconst", 5 if q else 60, 2)]
+         ("aliaschain", 8 if q else 150, 3), ("affineconst", 5 if q else 60, 2),
+         ("allalias", 4 if q else 60, 2), ("eliminit", 5 if q else 60, 2)]
     if prop == "C15":
         p += [("constexpr", 2 if q else 30, 2), ("timealias", 2 if q else 20, 2),
               ("affineinit", 2 if q else 30, 2), ("iteraffine", 2 if q else 30, 2), ("iterparam", 2 if q else 30, 2)]
-    p += [("nonlinear", 8 if q else 300, 2 if q else 4),
-          ("main", 40 if q else 1200, 3 if q else 5)]
+    p += [("nonlinear", 7 if q else 300, 2 if q else 4),
+          ("main", 36 if q else 1200, 3 if q else 5)]
     return p
 
 
